@@ -29,7 +29,7 @@ REAL_TO_SPEC = {v: k for k, v in SPEC_TO_REAL.items()}
 
 def _types():
     from lv.universe import tv_m1, tv_m2
-    return {'m1.T': tv_m1.T, 'm2.T': tv_m2.T, 'm1.TX': tv_m1.TX, 'm1.TSub': tv_m1.TSub}
+    return {'m1.T': tv_m1.T, 'm2.T': tv_m2.T, 'm1.TX': tv_m1.TX, 'm1.TSub': tv_m1.TSub, 'm1.T_': tv_m1.T_, 'm1.T__V': tv_m1.T__V}
 
 
 def _tname(cls):
@@ -130,6 +130,60 @@ def meta_tok(meta):
     if meta is None:
         return 'none'
     return f'{meta.start.isoformat() if meta.start else None}|{meta.duration.total_seconds() if meta.duration else None}'
+
+
+def _mainv_post_init(self):
+    object.__setattr__(self, 'derived', 'derived:' + repr(self.f1))
+
+
+def _mainv_run(self):
+    return 1
+
+
+def _define_main_type():
+    """A task type defined in the module run as the program (as in a user's script): a spawned interpreter re-imports it
+    under another module name."""
+    import labtech
+    ns = {'__annotations__': {'f1': object}, 'run': _mainv_run, 'post_init': _mainv_post_init, '__module__': __name__,
+          '__qualname__': 'MainV'}
+    return labtech.task(type('MainV', (), ns))
+
+
+try:
+    MainV = _define_main_type()
+except Exception:   # noqa
+    MainV = None
+
+
+def _probe(blob):
+    """Runs in a spawned interpreter: unpickle a task and report what the copy looks like there."""
+    from labtech.tasks import get_direct_dependencies
+    cp = pickle.loads(blob)
+    return {'key': cp.cache_key, 'derived': getattr(cp, 'derived', None), 'ctx_none': getattr(cp, 'context', 0) is None,
+            'meta_none': getattr(cp, 'result_meta', 0) is None, 'no_results': getattr(cp, '_results_map', 0) is None and not hasattr(cp, '_result'),
+            'deps': [d.cache_key for d in get_direct_dependencies(cp)], 'hashable': _hashable(cp)}
+
+
+def _hashable(x):
+    try:
+        hash(x)
+        return True
+    except Exception:   # noqa
+        return False
+
+
+def cross_process(tasks: list) -> list:
+    """Send pickled copies through a real process boundary (spawn start method)."""
+    import multiprocessing
+    from labtech.tasks import get_direct_dependencies
+    ctx = multiprocessing.get_context('spawn')
+    with ctx.Pool(1) as pool:
+        got = pool.map(_probe, [pickle.dumps(t) for t in tasks])
+    out = []
+    for t, g in zip(tasks, got):
+        out.append(bool(g['key'] == t.cache_key and g['derived'] == getattr(t, 'derived', None) and g['ctx_none'] and g['meta_none']
+                        and g['no_results'] and g['hashable'] and g['deps'] == [d.cache_key for d in get_direct_dependencies(t)]))
+    return out
 
 
 def observe_case(cid, ty, raw, protocols, storage, lab):
@@ -253,9 +307,27 @@ def run_job(job, base: Path):
         lab.run_tasks([alien_cls(f1=1)], disable_progress=True, disable_top=True)
     except BaseException:   # noqa
         pass
+    # C15: copies crossing a real process boundary -- a sample of the grammar's tasks and tasks of the main-module type
+    import random as _r
+    sample_ids = sorted(tasks)
+    _r.Random(len(sample_ids)).shuffle(sample_ids)
+    sample_ids = sample_ids[:job.get('crossproc', 40)]
+    mains = [MainV(f1=v) for v in (1, 'a', (1, 2), {'k': 1})] + [MainV(f1=[tasks[i]]) for i in sample_ids[:3]]
+    res = cross_process([tasks[i] for i in sample_ids] + mains)
+    by_id = {o['id']: o for o in out}
+    for i, ok in zip(sample_ids, res):
+        by_id[i]['pickle_ok'] = bool(by_id[i]['pickle_ok'] and ok)
+        if not ok:
+            by_id[i].setdefault('pickle_detail', {})['spawned_interpreter'] = False
+    for k, ok in enumerate(res[len(sample_ids):]):
+        # reported on an extra observation of the grammar's simplest case so that the judge (TaskValuesObs) sees it
+        o = dict(next(x for x in out if x['accepted']))
+        o.update(id=f'{job["id"]}-main{k}', tid=f'{job["id"]}-main{k}', pickle_ok=bool(ok), variants=[], listed_own=1, listed_elsewhere=0,
+                 listed_key_ok=True, listed_meta_ok=True, listed_loads_stored=True, ran=True, main_module_type=True)
+        out.append(o)
     # fresh-interpreter keys
     cases_file = d / 'cases.json'
-    json.dump([[o['ty'], o['raw']] for o in out if o['accepted']], open(cases_file, 'w'))
+    json.dump([[o['ty'], o['raw']] for o in out if o['accepted'] and not o.get('main_module_type')], open(cases_file, 'w'))
     fresh = {}
     for hs in job.get('hashseeds', [7]):
         env = dict(os.environ)
@@ -266,7 +338,7 @@ def run_job(job, base: Path):
         if p.returncode != 0:
             raise RuntimeError(f'key recomputation failed: {p.stderr[-1500:]}')
         fresh[hs] = json.load(open(outf))
-    acc = [o for o in out if o['accepted']]
+    acc = [o for o in out if o['accepted'] and not o.get('main_module_type')]
     for i, o in enumerate(acc):
         o['variants'] += sorted([f'fresh_interpreter_hashseed{hs}', fresh[hs][i]] for hs in fresh)
     # cached_tasks per type over the shared storage
@@ -288,6 +360,11 @@ def run_job(job, base: Path):
         o['listed_own'] = cnt[o['ty']]
         o['listed_elsewhere'] = sum(v for n, v in loose.items() if n != o['ty'])
         match = [x for x in listing[o['ty']] if type(x) is type(task) and x == task and from_py(x) == tree]
+        # C07: the key of the task as reconstructed from cache metadata (matched by plain equality)
+        eqs = [x for x in listing[o['ty']] if type(x) is type(task) and x == task]
+        if eqs:
+            o['variants'] = o['variants'] + [['from_cache_metadata', min(eqs, key=lambda x: x.cache_key != task.cache_key).cache_key
+                                              if len(eqs) > 1 else eqs[0].cache_key]]
         o['listed_key_ok'] = bool(match and match[0].cache_key == task.cache_key)
         o['listed_meta_ok'] = bool(match and meta_tok(match[0].result_meta) == o['meta'])
         if match:
